@@ -254,6 +254,14 @@ func (v *Verifier) callFunc(s *State, fn *types.Func, recv *Term, recvT types.Ty
 	}
 	fc := v.eng.contracts[full]
 	if recvT != nil {
+		if it, isIface := recvT.Underlying().(*types.Interface); isIface && recv != nil {
+			// devirtualisation: the dynamic type is known on this path and the concrete
+			// method is under contract
+			if cfc, cfn, ct := v.devirtualize(s, it, fn, recv); cfc != nil {
+				crecv := v.fromIface(s, recv, ct)
+				return v.applyContract(s, cfc, cfn, crecv, ct, args, call.Pos())
+			}
+		}
 		if _, isIface := recvT.Underlying().(*types.Interface); isIface {
 			// a contract on the static interface type of the receiver takes precedence
 			if call != nil {
@@ -1118,4 +1126,47 @@ func (v *Verifier) havocItem(s *State, pre *State, env *CEnv, a *CExpr) {
 	default:
 		unsupported("assigns item %s of type %s", a, x.Ty)
 	}
+}
+
+// devirtualize looks for a concrete method contract whose receiver type implements the
+// interface and is provably the dynamic type of recv.
+func (v *Verifier) devirtualize(s *State, it *types.Interface, fn *types.Func, recv *Term) (*FuncContract, *types.Func, types.Type) {
+	for _, key := range sortedKeys(v.eng.contracts) {
+		fc := v.eng.contracts[key]
+		if fc.Name != fn.Name() || fc.RecvType == "" || fc.Flags["trusted"] {
+			continue
+		}
+		p := v.eng.pkgs[fc.PkgPath]
+		if p == nil || p.Types == nil {
+			continue
+		}
+		obj, _ := p.Types.Scope().Lookup(fc.RecvType).(*types.TypeName)
+		if obj == nil {
+			continue
+		}
+		var ct types.Type = obj.Type()
+		if fc.RecvPtr {
+			ct = types.NewPointer(ct)
+		}
+		if _, isI := obj.Type().Underlying().(*types.Interface); isI {
+			continue
+		}
+		if !types.Implements(ct, it) {
+			continue
+		}
+		id, known := v.d.typeIDs[types.TypeString(ct, nil)]
+		if !known {
+			continue
+		}
+		if !v.entails(s, Eq(IType(recv), IntLit(int64(id)))) {
+			continue
+		}
+		mobj, _, _ := types.LookupFieldOrMethod(ct, true, p.Types, fn.Name())
+		cfn, _ := mobj.(*types.Func)
+		if cfn == nil {
+			continue
+		}
+		return fc, cfn, ct
+	}
+	return nil, nil, nil
 }
